@@ -61,6 +61,19 @@ func apiValue(kind, id int) string {
 	case 3:
 		return fmt.Sprintf("v%d:", id) + strings.Repeat("x", 2000)
 	}
+	if kind == 5 {
+		// a value larger than twice the write buffer of the WAL and of the table writers (4 MiB each), incompressible:
+		// its record takes the "fill the buffer, flush, write the rest directly" path of the buffered writer in one call
+		b := make([]byte, 9<<20)
+		x := uint64(id)*0x9e3779b97f4a7c15 + 1
+		for i := range b {
+			x ^= x << 13
+			x ^= x >> 7
+			x ^= x << 17
+			b[i] = byte(x >> 32)
+		}
+		return fmt.Sprintf("v%d:", id) + string(b)
+	}
 	return fmt.Sprintf("w%d", id)
 }
 
@@ -95,6 +108,11 @@ func apiGen(r *rand.Rand, thorough bool) apiCase {
 			}
 			c.Ops = append(c.Ops, op)
 		}
+	}
+	if r.Intn(25) == 0 {
+		// one very long value somewhere in the program
+		i := r.Intn(len(c.Ops))
+		c.Ops[i] = apiOp{Kind: "put", Key: 1 + r.Intn(2), Val: 5}
 	}
 	return c
 }
